@@ -187,7 +187,7 @@ __CPROVER_assigns(*uri, g_last_error, g_raise_count, g_mc_n, __CPROVER_object_wh
 __CPROVER_ensures(RET == AWS_OP_SUCCESS || RET == AWS_OP_ERR)
 __CPROVER_ensures(RET == AWS_OP_SUCCESS ==> uri->self_size == sizeof(struct aws_uri) && uri->allocator == allocator &&
                   uri->uri_str.allocator == allocator && uri->uri_str.len == uri_str->len && uri->uri_str.capacity == uri_str->len &&
-                  uri_str->len > 0 && __CPROVER_rw_ok(uri->uri_str.buffer, uri->uri_str.capacity))
+                  (uri_str->len == 0 ? uri->uri_str.buffer == NULL : __CPROVER_rw_ok(uri->uri_str.buffer, uri->uri_str.capacity)))
 __CPROVER_ensures(g_on && RET == AWS_OP_SUCCESS && g_j < uri_str->len ==> uri->uri_str.buffer[g_j] == g_src)
 __CPROVER_ensures(RET == AWS_OP_SUCCESS ==> ALL_UVIEWS_IN(uri))
 __CPROVER_ensures(RET == AWS_OP_SUCCESS ==> NOT_RAISED)
